@@ -433,6 +433,10 @@ func didOps(e *didEnv, v didVariant) []explore.Op {
 		explore.Op{Name: "Deactivate(d1,vm=d2#key1,k1,seq=seq(d2),via=R2)", Tx: func(w *world.World, m any) *world.TxSpec {
 			return tx(R2, &didtypes.MsgDeactivateDIDRequest{Did: d1, VerificationMethodId: e.vmID(d2, 1), Signature: e.sign(&didtypes.DIDDocument{Id: d1}, seqOf(m, d2), 1), FromAddress: R2.Bech})
 		}},
+		explore.Op{Name: "Update(d1,D5(d1),vm=d2#key1,k1,seq=seq(d1),via=R2)", Tx: func(w *world.World, m any) *world.TxSpec {
+			doc := e.doc("D5", d1) // the controller's key and method id, but the SUBJECT's sequence
+			return tx(R2, &didtypes.MsgUpdateDIDRequest{Did: d1, Document: doc, VerificationMethodId: e.vmID(d2, 1), Signature: e.sign(doc, seqOf(m, d1), 1), FromAddress: R2.Bech})
+		}},
 		explore.Op{Name: "Update(d1,D5(d1),vm=d2#key1,k1,seq=seq(d2),via=R2)", Tx: func(w *world.World, m any) *world.TxSpec {
 			doc := e.doc("D5", d1)
 			return tx(R2, &didtypes.MsgUpdateDIDRequest{Did: d1, Document: doc, VerificationMethodId: e.vmID(d2, 1), Signature: e.sign(doc, seqOf(m, d2), 1), FromAddress: R2.Bech})
